@@ -6,6 +6,7 @@ import (
 	"os"
 	"path/filepath"
 	"strings"
+	"time"
 
 	"github.com/openziti/storage/ast"
 	"github.com/openziti/storage/boltz"
@@ -13,9 +14,10 @@ import (
 )
 
 // C01 - filter evaluation.  Case lines (see coq/extraction/c01_driver.ml):
-//   S <schema>                      impl: S
-//   D <dataset>                     impl: D          (the dataset is written into a bolt file)
-//   Q <store> <zitiql hex> <term>   impl: R ok <QueryIds ids> <IterateIds ids> | R err | R panic
+//
+//	S <schema>                      impl: S
+//	D <dataset>                     impl: D          (the dataset is written into a bolt file)
+//	Q <store> <zitiql hex> <term>   impl: R ok <QueryIds ids> <IterateIds ids> | R err | R panic
 func init() { commands["c01"] = runC01 }
 
 const c01Base = "root"
@@ -92,6 +94,7 @@ func (r *c01Runner) query(store int, text string) (res string) {
 
 func (r *c01Runner) runFilter(store int, f *c01Filter) {
 	text := f.text()
+	watchdogBeat(fmt.Sprintf("%d %s", store, text))
 	r.cases.line("Q %d %s %s", store, hxs(text), f.term())
 	res := r.query(store, text)
 	r.impl.line("%s", res)
@@ -108,6 +111,7 @@ func (r *c01Runner) runFilter(store int, f *c01Filter) {
 }
 
 func runC01(o *opts) error {
+	startWatchdog(o.out, 20*time.Second)
 	if t := o.get("render", ""); t != "" {
 		fmt.Println(hxs(c01ParseTerm(strings.Split(t, ",")).text()))
 		return nil
